@@ -123,6 +123,35 @@ static std::string handle(std::string const& op, std::vector<std::string> const&
                  static_cast<char>(std::stoi(a[2])), static_cast<char>(std::stoi(a[3])));
     return hu::hex(r.message(static_cast<size_t>(std::stoull(a[5]))));
   }
+  if (op == "reqops" || op == "respops")
+  {
+    // builder operations: C:<hex> (constructor header string, first) S:<hex> I:<id>:<hex> F:<hex>:<hex> L:<n> V H
+    bool is_req = op == "reqops";
+    auto ops = hu::split(a[is_req ? 4 : 2], ';');
+    std::string h0;
+    if (!ops.empty() && ops[0].rfind("C:", 0) == 0) { h0 = hu::unhex(ops[0].substr(2)); ops.erase(ops.begin()); }
+    tx_request rq(is_req ? hu::unhex(a[0]) : std::string("GET"), is_req ? hu::unhex(a[1]) : std::string("/"), h0,
+                  is_req ? static_cast<char>(std::stoi(a[2])) : '1', is_req ? static_cast<char>(std::stoi(a[3])) : '1');
+    std::string reason(is_req ? std::string() : hu::unhex(a[1]));
+    tx_response rs(reason, is_req ? 200 : std::stoi(a[0]), h0);
+    for (auto const& o : ops)
+    {
+      auto p = hu::split(o, ':');
+      if (p[0] == "S") { if (is_req) rq.set_header_string(hu::unhex(p[1])); else rs.set_header_string(hu::unhex(p[1])); }
+      else if (p[0] == "I")
+      {
+        auto id = static_cast<header_field::id>(std::stoi(p[1]));
+        if (is_req) rq.add_header(id, hu::unhex(p[2])); else rs.add_header(id, hu::unhex(p[2]));
+      }
+      else if (p[0] == "F") { if (is_req) rq.add_header(hu::unhex(p[1]), hu::unhex(p[2])); else rs.add_header(hu::unhex(p[1]), hu::unhex(p[2])); }
+      else if (p[0] == "L") { size_t n = static_cast<size_t>(std::stoull(p[1])); if (is_req) rq.add_content_length_header(n); else rs.add_content_length_header(n); }
+      else if (p[0] == "V") { if (!is_req) rs.add_server_header(); }
+      else if (p[0] == "H") { if (!is_req) rs.add_content_http_header(); }
+    }
+    size_t n = static_cast<size_t>(std::stoull(a[is_req ? 5 : 3]));
+    if (is_req) return hu::hex(rq.message(n));
+    return "valid=" + b2s(rs.is_valid()) + " msg=" + hu::hex(rs.message(n));
+  }
   if (op == "chunkhdr")
   {
     chunk_header<1024, 8, false> h(static_cast<size_t>(std::stoull(a[0])), hu::unhex(a[1]));
